@@ -81,9 +81,27 @@ def run(res, tier, seed):
             lines += [lb + ":", "    nop"]
         lines += ["    ret"]
         base.append("\n".join(lines) + "\n")
+    # every operand form of the instructions that have several, each a few times, so that the
+    # random layout changes (trailing comments, separators, case) meet each form
+    forms = ["jalr t3", "jalr t3, 0", "jalr t3, t4, 0", "jalr t3, 0(t4)", "jalr t3, (t4)", "jal f", "jal t0, f",
+             "lw a0, 4(sp)", "lw a0, (sp)", "lw a0, 4", "sw a0, 4(sp)", "sw a0, (sp)", "sw a0, 4, t1",
+             "lb a1, 0(t0)", "jr t3", "ret", "j loop", "beqz a0, end", "bgt a0, a1, done", "li a0, 5",
+             "mv a0, a1", "neg a0, a1", "not a0, a1", "seqz a0, a1", "snez a0, a1", "csrr a0, 64", "csrw 64, a0",
+             "csrwi 64, 3", "nop", "la a0, data_1", "call f"]
+    form_lines = ["main:"]
+    for _ in range(3):
+        order_ = list(forms)
+        rng.shuffle(order_)
+        form_lines += ["    " + x for x in order_]
+    form_lines += ["    li a7, 10", "    ecall"]
+    for lb in ["loop", "end", "f", "g", "L1", "_x", "done", "data_1"]:
+        form_lines += [lb + ":", "    nop"]
+    form_lines += ["    ret"]
+    form_file = "\n".join(form_lines) + "\n"
+    base.append(form_file)
     pairs = []
     for s in base:
-        for _ in range(2):
+        for _ in range(6 if s is form_file else 2):
             pairs.append((s, rewrite.rewrite_program(rng, s)))
     inputs = []
     for s, t in pairs:
